@@ -107,7 +107,7 @@ def rand_circuit(rng, **kw):
     return cg.Circuit(name=name, graph=rand_dag(rng, **kw))
 
 
-def add_flops(rng, c, n_flops=1, bbtype=None, others=True):
+def add_flops(rng, c, n_flops=1, bbtype=None, others=True, d="d", q="q"):
     """Turn a combinational circuit into a sequential one by inserting flop blackboxes built directly
     on the graph: each flop's d pin is driven by an existing node, its q pin drives a new buf that is
     added to the fan-in of some multi-input gate (or marked output)."""
@@ -118,6 +118,9 @@ def add_flops(rng, c, n_flops=1, bbtype=None, others=True):
     nodes = [n for n in g.nodes if g.nodes[n].get("type") not in ("bb_input", "bb_output")]
     if "clk" in bb.inputs() and "clk" not in g:
         g.add_node("clk", type="input", output=False)
+    for p in sorted(bb.inputs() - {d, "clk"}):          # other input pins: driven by a primary input named like the pin
+        if p not in g:
+            g.add_node(p, type="input", output=False)
     for k in range(n_flops):
         inst = "ff%d" % k
         c.blackboxes[inst] = bb
@@ -126,17 +129,19 @@ def add_flops(rng, c, n_flops=1, bbtype=None, others=True):
         for p in bb.outputs():
             g.add_node("%s.%s" % (inst, p), type="bb_output", output=False)
         src = rng.choice(nodes)
-        g.add_edge(src, inst + ".d")
+        g.add_edge(src, inst + "." + d)
         if "clk" in bb.inputs():
             g.add_edge("clk", inst + ".clk")
-        q = "q%d" % k
-        g.add_node(q, type="buf", output=False)
-        g.add_edge(inst + ".q", q)
+        for p in sorted(bb.inputs() - {d, "clk"}):
+            g.add_edge(p, inst + "." + p)
+        qn = "q%d" % k
+        g.add_node(qn, type="buf", output=False)
+        g.add_edge(inst + "." + q, qn)
         tgts = [m for m in nodes if g.nodes[m]["type"] in GATESN and not nx.has_path(g, m, src)]
         if tgts and rng.random() < 0.85:
-            g.add_edge(q, rng.choice(tgts))
+            g.add_edge(qn, rng.choice(tgts))
         else:
-            g.nodes[q]["output"] = True
+            g.nodes[qn]["output"] = True
     return c
 
 
